@@ -109,3 +109,52 @@ H(h_c04_dhcp_wire) {
     vp_witness();
 }
 
+
+// removing an option keeps the others in their order (wire order and first-match getters depend on it)
+H(h_c04_tcp_remove_order) {
+    TCP t(vp_u16(), vp_u16());
+    uint16_t mss = vp_u16(); uint8_t ws = vp_u8(); uint32_t a1 = vp_u32(), a2 = vp_u32(), b1 = vp_u32(), b2 = vp_u32();
+    t.mss(mss); t.timestamp(a1, a2); t.winscale(ws); t.timestamp(b1, b2);
+    vp_assert(t.remove_option(TCP::MSS), "TCP: removing the first option succeeds");
+    const TCP::options_type& o = t.options();
+    vp_assert(o.size() == 3 && o[0].option() == TCP::TSOPT && o[1].option() == TCP::WSCALE && o[2].option() == TCP::TSOPT, "TCP: the remaining options keep their order after a removal");
+    std::pair<uint32_t, uint32_t> ts = t.timestamp();
+    vp_assert(ts.first == a1 && ts.second == a2 && t.winscale() == ws, "TCP: after a removal the getters still return the first matching option");
+    PDU::serialization_type out = t.serialize();
+    vp_assert(out.size() == 20 + 24 && out[20] == TCP::TSOPT && out[30] == TCP::WSCALE && out[33] == TCP::TSOPT, "TCP: the wire order of the remaining options is their insertion order");
+    TCP q(&out[0], (uint32_t)out.size());
+    std::pair<uint32_t, uint32_t> tq = q.timestamp();
+    vp_assert(tq.first == a1 && tq.second == a2 && q.winscale() == ws && q.search_option(TCP::MSS) == 0, "TCP: the parsed segment has the same options");
+    vp_witness();
+}
+// IP security option: every field value, and an option area that is an exact multiple of four bytes ending in a multi-byte option
+H(h_c04_ip_security_wire) {
+    uint32_t sa = vp_u32(), da = vp_u32();
+    vp_assume(sa != 0);
+    IP ip; ip.src_addr(IPv4Address(sa)); ip.dst_addr(IPv4Address(da));
+    uint16_t sec = vp_u16(), comp = vp_u16(), hr = vp_u16(); uint32_t tcc = vp_u32() & 0xffffff;
+    ip.noop();
+    ip.security(IP::security_type(sec, comp, hr, tcc));
+    IP::security_type g = ip.security();
+    vp_assert(g.security == sec && g.compartments == comp && g.handling_restrictions == hr && g.transmission_control == tcc, "IP: security() returns the values set");
+    ip.protocol(253);
+    PDU::serialization_type out = ip.serialize();
+    vp_assert(out.size() == ip.size() && out.size() == 20 + 12, "IP: NOP (1) + security (11) fill a 12-byte option area exactly");
+    IP q(&out[0], (uint32_t)out.size());
+    IP::security_type h = q.security();
+    vp_assert(h.security == sec && h.compartments == comp && h.handling_restrictions == hr && h.transmission_control == tcc, "IP: the security option decodes from the wire to the values set");
+    vp_witness();
+}
+H(h_c04_ip_sid_only_wire) {
+    uint32_t sa = vp_u32();
+    vp_assume(sa != 0);
+    IP ip; ip.src_addr(IPv4Address(sa));
+    uint16_t sid = vp_u16();
+    ip.stream_identifier(sid);
+    ip.protocol(253);
+    PDU::serialization_type out = ip.serialize();
+    vp_assert(out.size() == 24, "IP: one 4-byte option needs no padding");
+    IP q(&out[0], (uint32_t)out.size());
+    vp_assert(q.stream_identifier() == sid, "IP: an option area without padding is parsed back");
+    vp_witness();
+}
